@@ -15,7 +15,7 @@ import sys
 import traceback
 
 VERIF_DIR = os.path.dirname(os.path.dirname(os.path.abspath(__file__)))
-HASHSEED = "0"
+HASHSEED = os.environ.get("VERIF_HASHSEED", "0")  # harness hash seed; the determinism self-test varies it
 ENGINE_VERSION = 1
 
 EXIT_OK = 0
